@@ -122,10 +122,12 @@ func (p *MP4ChunkParser) readUntil(contentEnd int) error {
 		}
 		n, err := p.r.Read(p.buf[p.contentEnd:contentEnd])
 		p.contentEnd += n
-		if err != nil {
+		if err != nil && !(err == io.EOF && p.contentEnd >= contentEnd) {
 			return err
 		}
 		if p.contentEnd >= contentEnd {
+			// A reader may return io.EOF together with the last bytes. If they
+			// complete the request, the EOF is picked up by the next Read.
 			return nil
 		}
 	}
